@@ -1051,6 +1051,11 @@ class AbsInt:
             return c
         if op in ('Add', 'Sub', 'Shl', 'Shr') and c == ('c', 0):
             return a
+        if op == 'Sub' and c[0] == 'bin' and c[1] == 'BitAnd' and a[0] != 'c':
+            # x - (x & (2^s - 1))  ==  x & !(2^s - 1): the rounded-down form the alignment layer knows
+            for p_, q_ in ((c[2], c[3]), (c[3], c[2])):
+                if p_ == a and self._is_low_mask(q_) and self.vn_ty(a) in ('u64', 'usize', None):
+                    return self.mk_bin('BitAnd', a, ('bin', 'Sub', ('c', (1 << 64) - 1), q_))
         if op in ('Div', 'Mul') and c == ('c', 1):
             return a
         if op == 'Mul' and a == ('c', 1):
@@ -1058,6 +1063,25 @@ class AbsInt:
         return ('bin', op, a, c)
 
     def is_mult(self, st, v, t, d=0):
+        return False
+
+    def _is_low_mask(self, m):
+        """2^s - 1, structurally"""
+        k = 0
+        while m[0] in ('wrap', 'cast') and k < 4:
+            m = m[1]
+            k += 1
+        if m[0] == 'c':
+            return m[1] > 0 and (m[1] & (m[1] + 1)) == 0
+        if m[0] == 'bin' and m[1] == 'Sub' and m[3] == ('c', 1):
+            x = m[2]
+            k = 0
+            while x[0] in ('wrap', 'cast') and k < 4:
+                x = x[1]
+                k += 1
+            if x[0] == 'c':
+                return x[1] > 0 and (x[1] & (x[1] - 1)) == 0
+            return x[0] == 'bin' and x[1] == 'Shl' and x[2] == ('c', 1)
         return False
 
     def len_of(self, p):
@@ -1807,6 +1831,12 @@ class AbsInt:
             if a[0] == 'opt':
                 return ('opt', 'ControlFlow', a[2], a[3])
             return None
+        if fn.endswith('ops::FromResidual::from_residual'):
+            # the residual of `?`: the failing variant of the destination (None / Err(..))
+            k_ = self.kind_of_tid(dtid) if dtid is not None else None
+            if k_ in ('Option', 'Result'):
+                return ('opt', k_, ('u', ('residual', frame, b.path, bi), self.tname(self.payload_tid(dtid))), ('c', 0))
+            return None
         if name in ('ok_or', 'ok_or_else', 'map_err', 'ok', 'or_else_err') and ('Option::<T>' in fn or 'Result::<T, E>' in fn):
             a = args[0]
             if a[0] == 'opt':
@@ -1953,8 +1983,11 @@ class AbsInt:
                     st.le.add(('lt', x, hi))
                     st.le.add(('le', lo, x))
                     sh = self.pow2_shift(st, step) if hasattr(self, 'pow2_shift') else None
-                    if lo == ('c', 0) and sh is not None:
+                    if sh is not None and (lo == ('c', 0) or self.is_mult(st, lo, sh)):
                         st.le.add(('al', x, sh))
+                        if self.is_mult(st, hi, sh):
+                            # x < hi, both multiples of the step: the whole step fits below hi
+                            st.le.add(('le', self.mk_bin('Add', x, step), hi))
                     self.walk_sites.setdefault((frame, b.path, bi), ('stepby', lo, hi, step, b.path, bi))
                     self.walks[x] = self.walk_sites[(frame, b.path, bi)]
                     return ('opt', 'Option', x, ('u', ('next', frame, b.path, bi), 'bool'))
